@@ -626,8 +626,12 @@ class ProgGen:
             elif r < 0.38:
                 items.append(("align", num(rng.choice([8, 16, 32, 64, 24]))))
             elif r < 0.40 and not self.use_banks:
-                # forward #addr relative to the current position
-                items.append(("addr", ("bin", "+", ("pc",), num(rng.randint(0, 5)))))
+                # forward #addr relative to the current position; sometimes backward, into (or before) what was just
+                # emitted: a following item then overlaps and the program must be rejected
+                if rng.random() < 0.15:
+                    items.append(("addr", ("bin", "-", ("pc",), num(rng.randint(1, 3)))))
+                else:
+                    items.append(("addr", ("bin", "+", ("pc",), num(rng.randint(0, 5)))))
             elif r < 0.46 and self.use_banks and len(self.banks) > 1:
                 b = rng.choice(self.banks)
                 items.append(("bank", b["name"]))
